@@ -794,7 +794,50 @@ def _dicts(spec, mon, rec, rng):
                 rec.case((text, desc), nontrivial=True)
                 mon.compare(name, text, real, thunk, unordered, desc,
                             replay={'kind': 'dict', 'name': name, 'shard': spec['name'], 'index': i})
+    legacy_projection(mon, rec, rng, spec['count'] * 4)
     rec.sample({'function': name, 'text': text, 'vars': desc})
+
+
+def legacy_projection(mon, rec, rng, count):
+    """member projection over a collection (`$.name`) maps the `.` operator of the evaluating context over the
+    elements: it agrees with `$.select($.name)` in every flavour, and in the legacy flavour, whose `.` on a dictionary
+    gives null for an absent key, with [d.get(name) for d in data]"""
+    from yaql import legacy as ylegacy
+    flavours = getattr(mon, '_legacy_flavours', None)
+    if flavours is None:
+        flavours = mon._legacy_flavours = [
+            ('legacy-engine+legacy-context', ylegacy.YaqlFactory().create(), ylegacy.create_context(), True),
+            ('default-engine+legacy-context', mon.eng, ylegacy.create_context(), True),
+            ('default', mon.eng, mon.ctx, False)]
+    keys = ['a', 'b', 'c']
+    for _ in range(count):
+        doc = [{k_: rng.randrange(10) for k_ in keys if rng.random() < 0.6} for _ in range(rng.randrange(0, 5))]
+        key = rng.choice(keys)
+        for fname, eng, ctx, lenient in flavours:
+            outs = []
+            for text in ('$.%s' % key, '$.select($.%s)' % key, '$.where(true).%s' % key, '$.select($).%s.select($)' % key):
+                try:
+                    r = eng(text).evaluate(data=doc, context=ctx.create_child_context())
+                    outs.append(('value', [x for x in r]))
+                except Exception as e:
+                    outs.append(('error', type(e).__name__))
+            rec.count('cases')
+            rec.count('fn.member-projection-flavours')
+            rec.count('world.' + fname)
+            rec.case(('legacy-projection', fname, repr(doc), key), nontrivial=bool(doc))
+            complete = all(key in d for d in doc)
+            if lenient or complete:
+                want = ('value', [d.get(key) for d in doc])
+                bad = [o for o in outs if o != want]
+            else:
+                want = 'an error (absent key)'
+                bad = [o for o in outs if o[0] != 'error']
+            if bad:
+                rec.violation('library-result-differs-from-model:member-projection:%s' % fname,
+                              'member %s projected out of %r in the %s flavour gives %r for $.%s / $.select($.%s) / ..., expected %r' % (
+                                  key, doc, fname, outs, key, key, want), {'kind': 'none'})
+            else:
+                rec.count('agree.value')
 
 
 def _laws(spec, mon, rec, rng):
